@@ -130,6 +130,8 @@ type FnVC struct {
 	extPairs     map[string]bool
 	extList      [][2]string
 	tagList      []string
+	tagTypes     map[string]types.Type       // type tag constant -> the concrete type it stands for
+	ifaceAsserts map[string]*types.Interface // implements_<I> function -> interface asserted somewhere in this function
 	closures     map[ssa.Value]*ssa.MakeClosure
 	genErr       string
 	ghostElem    map[string]types.Type
